@@ -316,23 +316,36 @@ theorem ss_ident (s rest : Str) (hs : isIdent s = true) : SS (s ++ rest) := by
   | cons c cs => exact headFails_cons _ _ _ (identChar_not_drop (((isIdent_iff _).1 hs).2 c (by simp)))
 
 theorem version_solid (v : VersionA) (hv : v.ok = true) : ∀ c ∈ v.str, c ≠ '\n' := by
-  obtain ⟨hb, he⟩ := (VersionA.ok_iff v).1 hv
+  obtain ⟨hf, hm, he⟩ := (VersionA.ok_iff v).1 hv
   intro c hc
   cases hep : v.epoch with
   | none =>
     simp only [VersionA.str, hep, List.nil_append] at hc
-    exact ident_solid hb c hc
+    have hfb : v.first = v.body := by simp [VersionA.first, hep]
+    rw [hfb] at hf
+    exact ident_solid hf c hc
   | some e =>
     simp only [VersionA.str, hep, List.mem_append, List.mem_singleton] at hc
     rcases hc with (hc | hc) | hc
     · exact ident_solid (isIdent_of_digits (he e hep).1) c hc
     · subst hc; decide
-    · exact ident_solid hb c hc
+    · -- a character of the body: a colon or a character of one of the pieces between the colons
+      have hmore : v.more = Text.splitOn ':' v.body := by simp [VersionA.more, hep]
+      have h1 : c ∈ (':' :: v.body) := List.mem_cons_of_mem _ hc
+      rw [← splitOn_flatten ':' v.body] at h1
+      simp only [List.mem_flatten, List.mem_map] at h1
+      obtain ⟨l, ⟨q, hq, rfl⟩, hcl⟩ := h1
+      rcases List.mem_cons.1 hcl with rfl | hcq
+      · decide
+      · exact ident_solid (hm q (hmore ▸ hq)) c hcq
 
 theorem ss_version (v : VersionA) (rest : Str) (hv : v.ok = true) : SS (v.str ++ rest) := by
-  obtain ⟨hb, he⟩ := (VersionA.ok_iff v).1 hv
+  obtain ⟨hf, _, he⟩ := (VersionA.ok_iff v).1 hv
   cases hep : v.epoch with
-  | none => simpa [VersionA.str, hep] using ss_ident _ rest hb
+  | none =>
+    have hfb : v.first = v.body := by simp [VersionA.first, hep]
+    rw [hfb] at hf
+    simpa [VersionA.str, hep] using ss_ident _ rest hf
   | some e =>
     simpa [VersionA.str, hep] using ss_ident e (':' :: (v.body ++ rest)) (isIdent_of_digits (he e hep).1)
 
